@@ -596,12 +596,23 @@ CHECKS += [
          technique="lifted execution of the devices' preprocessing programs on z3 angle terms; matrix-route oracle; z3 QF_NRA equality proofs plus structural support checks"),
 ]
 
+CHECKS += [
+    dict(property_id="C24", category="other", engine=E1,
+         text="Partial (manual cuts, symbolic angles): 5 circuits with SYMBOLIC gate angles and qp.WireCut markers (one cut, two cuts on different wires, two cuts on the same wire, a cut next to a "
+              "measured wire, a chain of three fragments; every cut wire carries an X / S type rotation before the cut so that all four channels of the cut contribute) go through the REAL "
+              "qp.cut_circuit (graph, fragments, configuration expansion, tensor post-processing); every fragment circuit is evaluated by the matrix-route oracle with symbolic angles, the REAL "
+              "post-processing contracts the symbolic results, and z3 proves the recombined value equal to the uncut circuit's expectation value for all angles; fragments fit the device.",
+         note=PROOF_NOTE + " Category 'other' (partial): automatic cut placement, cut_circuit_mc (sampling), shots, opt_einsum paths and more than 4 wires are outside. Hand-made mutants: a wrong Y row of "
+              "the change-of-basis matrix is reported (2 obligations) - it was NOT reported by a first version of the circuits whose amplitudes before the cuts were real (the Y channel vanished "
+              "identically); a normalisation mutant exchanging prepare and measure counts is an equivalent mutant (the totals agree).",
+         technique="matrix-route oracle on z3 angle terms for every fragment circuit; the real tensor contraction on symbolic results; z3 QF_NRA equality proofs"),
+]
+
 _NOT_BUILT = "claimed in DESIGN.md §4 but its solver-based check is not built yet in this tree"
 NOT_APPLICABLE_REASONS = {
     "C11": "declared resources depend only on discrete configurations that must each be run concretely; no symbolic dimension",
     "C14": "unitary synthesis runs through eig/svd/det and arctan2/arccos on arbitrary unitaries (LAPACK, inverse transcendental functions)",
     "C15": "Clifford+T approximation: float/mpmath grid search with input-dependent loops; epsilon-bound on a numerically produced word",
-    "C24": "circuit cutting: graph partitioning + opt_einsum contraction on typed arrays",
     "C29": "finite-shot sampling: statistical property",
     "C31": "parallel/seeded execution: OS scheduling, processes, threads",
     "C32": "result structure across devices/interfaces/diff methods: configuration matrix of torch/jax/autograd",
